@@ -2875,17 +2875,6 @@ sexp sexp_read_float_tail (sexp ctx, sexp in, double whole, int negp) {
 #endif
     e = (sexp_fixnump(exponent) ? sexp_unbox_fixnum(exponent)
          : sexp_flonump(exponent) ? sexp_flonum_value(exponent) : 0.0);
-#if SEXP_USE_COMPLEX
-    if (sexp_complexp(res)) {
-      if (sexp_complex_real(res) == SEXP_ZERO) {
-        sexp_complex_imag(res) = sexp_make_flonum(ctx, val * pow(10, e));
-      } else {
-        sexp_complex_real(res) = sexp_make_flonum(ctx, val * pow(10, e));
-      }
-      sexp_gc_release1(ctx);
-      return res;
-    }
-#endif
   }
   if (exactp && whole >= 0 && ndigits < SEXP_FLOAT_DIGITS_LEN
       && e == (long)e && fabsl(e) < 1000000) {
@@ -2895,6 +2884,17 @@ sexp sexp_read_float_tail (sexp ctx, sexp in, double whole, int negp) {
     if (negp) val *= -1;
   } else if (e != 0.0)
     val = fabsl(e) > 320 ? exp(log(val) + e*M_LN10) : val * pow(10, e);
+#if SEXP_USE_COMPLEX
+  if (sexp_complexp(res)) {     /* the exponent was followed by the rest of a complex */
+    if (sexp_complex_real(res) == SEXP_ZERO) {
+      sexp_complex_imag(res) = sexp_make_flonum(ctx, val);
+    } else {
+      sexp_complex_real(res) = sexp_make_flonum(ctx, val);
+    }
+    sexp_gc_release1(ctx);
+    return res;
+  }
+#endif
 #if SEXP_USE_FLONUMS
   res = sexp_make_flonum(ctx, val);
 #else
